@@ -16,7 +16,7 @@ rule("C20.a", "one execution variable per order with bounds [0, 1] (l zeros, u o
 rule("C20.b", "full execution flags every row of the order book as boolean", floor=1)
 rule("C20.c", "cost, delivered volume and covered steps of an order use one step selector; one order index keys cost and rows (an order variable "
               "carries a cost exactly when it has mapping rows: otherwise its cash flow is in the optimal value but in no asset's cash flows)", floor=3,
-     props=["C20", "C04"])
+     props=["C20", "C04", "C07"])
 rule("C20.f", "the order report de-duplicates the mapping by index and reads x and c at the variable label", floor=2)
 
 
@@ -39,11 +39,15 @@ rule("C20.q", "the steps an order delivers in are the steps that *start* inside 
               "intersects the window) also takes the step that merely contains the start of an order that begins off the grid", floor=1,
      props=["C20", "C19", "C08"])
 
+rule("C20.r", "a quantity an order gives for its whole period is spread over the period's own length (end - start): a division by the summed "
+              "length of the steps the order covers in the grid makes the share inside the horizon the whole quantity (an order that sticks out of "
+              "the horizon must deliver pro rata - C08)", floor=0, props=["C20", "C08"])
+
 ROW_REDUCERS = ("drop_duplicates", "unique", "groupby", "dropna", "query", "head", "tail", "sample", "nlargest", "nsmallest", "duplicated", "first", "last",
                 "drop", "where", "mask", "filter", "compress", "take")
 
 
-@analysis("orderbook", ["C20.a", "C20.b", "C20.c", "C20.f", "C20.l", "C20.m", "C20.n", "C20.p", "C20.q"])
+@analysis("orderbook", ["C20.a", "C20.b", "C20.c", "C20.f", "C20.l", "C20.m", "C20.n", "C20.p", "C20.q", "C20.r"])
 def run(ctx):
     p = ctx.p
     ob = p.cls("OrderBook")
@@ -175,6 +179,18 @@ def run(ctx):
                     masks = {au.U(x.slice) for x in au.walk_local(st.value) if isinstance(x, ast.Subscript) and isinstance(x.slice, ast.Name)
                              and x.slice.id != lv}
                     sel_by_role[role] = (masks, st)
+                if role == "cost":
+                    # every additive term of the cost is a sum over the selected steps: a term without the selector is due even when the
+                    # order has no step in the horizon - a variable without mapping row must have zero cost (C07)
+                    terms = au.flatten_binop(st.value, (ast.Add, ast.Sub))
+                    free = [t0 for t0 in terms if not any(isinstance(x, ast.Subscript) and isinstance(x.slice, ast.Name) and x.slice.id != lv for x in au.walk_local(t0))
+                            and au.const_num(t0) != 0]
+                    if len(terms) > 1 or free:
+                        ctx.ob("C20.c", fn, "every term of the cost of an order is a sum over its steps", not free,
+                               "the term %s of the cost of an order does not depend on the steps the order covers: an order without a step in the horizon "
+                               "has no mapping row, its variable must then have zero cost (C07: a variable without row is free of cost and in no "
+                               "restriction) - here it keeps the cost %s (variable 2 has no mapping row, but cost 2.5)" % (
+                                   au.short(free[0], 40) if free else "", au.short(free[0], 40) if free else ""), node=st)
         allm = set()
         for m, _ in sel_by_role.values():
             allm |= m
@@ -258,3 +274,27 @@ def run(ctx):
                    node=d.node, ok_detail="half-open membership of the step starts")
     if not judged:
         ctx.ob("C20.q", fn, "step selector of an order", None, "no selector applied to the step lengths / step indices found")
+
+
+    # ================================================================= C20.r proration of per-order quantities
+    n_r = 0
+    org_r = ctx.origins(fn, values_only=True)
+    for st in au.walk_stmts(fn.body):
+        for x in au.walk_own(st):
+            if not (isinstance(x, ast.BinOp) and isinstance(x.op, ast.Div)):
+                continue
+            from_orders = any(isinstance(y, ast.Subscript) and au.path(y.value) == "self.orders" for y in au.walk_local(x.left)) or any(
+                isinstance(y, ast.Attribute) and au.path(y) == "self.orders" for y in org_r.nodes(x.left, st))
+            if not from_orders:
+                continue
+            den_nodes = list(au.walk_local(x.right)) + org_r.nodes(x.right, st)
+            grid_len = any(isinstance(y, ast.Call) and au.method_name(y) == "sum" for y in au.walk_local(x.right)) and any(
+                (isinstance(y, ast.Attribute) and y.attr == "dt") or (isinstance(y, ast.Name) and any(isinstance(d.value, ast.Attribute) and d.value.attr == "dt"
+                                                                                                     for d in ff.defs(y.id, st) if d.value is not None)) for y in den_nodes)
+            n_r += 1
+            ctx.ob("C20.r", fn, au.short(x, 70), not grid_len,
+                   "a quantity of the order is divided by %s - the length of the steps the order covers *inside the grid*: an order that straddles the "
+                   "end of the horizon delivers its whole volume in the covered part (96 MWh on the one day inside, where the share of the covered "
+                   "duration is 48) - what lies outside the horizon changes the dispatch inside" % au.short(x.right, 40), node=x)
+    if n_r == 0:
+        ctx.ob("C20.r", fn, "per-order quantities", True, ok_detail="no per-period quantity of an order is divided by a grid length")
